@@ -108,6 +108,18 @@ pub fn run(ctx: &mut Ctx) {
         // one case in six leaves every weight at its default: equal weights 1/n
         let defaults = idx % 6 == 1;
         let mk = |rng: &mut Rng| -> Vec<f64> { if defaults { vec![1.0 / nv as f64; nv] } else { mk(rng) } };
+        // one case in eight: decimal fractions (their sum is 1 only up to a rounding residue,
+        // which the setters accept), negative and over-unity components included
+        let decimal = idx % 8 == 6 && !defaults && !vertex && nv >= 2;
+        let mk = |rng: &mut Rng| -> Vec<f64> {
+            if !decimal {
+                return mk(rng);
+            }
+            let mut w: Vec<f64> = (0..nv - 1).map(|_| (rng.range(0, 240) as f64 - 80.0) / 100.0).collect();
+            let rest = 1.0 - w.iter().sum::<f64>();
+            w.insert(rng.below(nv), (rest * 100.0).round() / 100.0);
+            w
+        };
         let wd = mk(rng);
         let wp: Vec<Vec<f64>> = (0..nstream).map(|_| mk(rng)).collect();
         let mut wg: Vec<Vec<f64>> = (0..nstream).map(|_| mk(rng)).collect();
@@ -177,8 +189,16 @@ pub fn run(ctx: &mut Ctx) {
                 .set("observed", extra)
         };
         if !setters_ok {
+            if decimal {
+                // (a sum that is 1 only up to a few ulps is in the grey zone: the setter may refuse it)
+                ctx.count("decimal_weight_cases_refused_by_a_setter", 1.0);
+                return;
+            }
             ctx.violation("valid-weights-rejected", descr(J::Null));
             return;
+        }
+        if decimal {
+            ctx.count("decimal_weight_cases", 1.0);
         }
         let labels: Vec<Label> = (0..if ctx.quick() { 12 } else { 50 })
             .map(|i| if i % 2 == 0 { rng.pick(&env.corpus.labels).clone() } else { env.corpus.recombine(rng) })
